@@ -94,6 +94,24 @@ def run(e: Engine, rep: Report):
                     o.witness, o.nontrivial, o.reason)
     rep.errors += sub.errors
     rep.evaluations += sub.evaluations
+    rep.rule('G14', '= C05-R5.5 (reader side): the DATA reader ends a line '
+             'at a single byte (LF) that the line body cannot contain - the '
+             'line cut runs on every piece as it arrives, so a terminator '
+             'of two bytes is not seen when a read boundary falls between '
+             'them (two lines are glued, the end-of-data line behind them '
+             'is missed)')
+    sub = Report(rep.prop, rep.tier, rep.repo)
+    _c05.r55(e, sub)
+    for o in sub.obls:
+        if o.text.startswith('a line ends at every LF') or \
+                o.text.startswith('shape of the line pattern'):
+            rep.add('G14', o.where, o.text, o.status,
+                    (o.what + ' [for the command stream: the same bytes cut '
+                     'differently are taken apart differently]')
+                    if o.what else '', o.loc, o.witness, o.nontrivial,
+                    o.reason)
+    rep.errors += sub.errors
+    rep.evaluations += sub.evaluations
     rep.floor('G1', 6, 'buffer / socket access sites')
 
 
